@@ -97,10 +97,24 @@ func (d *Disk) ReadAt(p []byte, off int64) (int, error) {
 		return 0, errDiskIO
 	}
 	n := copy(p, d.visible[off:])
+	d.completion("ReadAt")
 	if n < len(p) {
 		return n, io.EOF
 	}
 	return n, nil
+}
+
+// completion is a second scheduling point of a device call, after the
+// transfer, in the fine-grained runs (those that also treat atomic
+// operations as scheduling points, seam S5): what a caller does with the
+// buffer after the call returned is not atomic with the transfer itself.
+func (d *Disk) completion(call string) {
+	if d.NoYield {
+		return
+	}
+	if s := rt.Active(); s != nil && s.AtomicYields {
+		rt.Yield("disk." + d.Name + "." + call + ".done")
+	}
 }
 
 func (d *Disk) WriteAt(p []byte, off int64) (int, error) {
